@@ -180,6 +180,13 @@ def prefix_arithmetic_layering(rep: Report, prog: Program, resolver: Resolver) -
     for q, fi in prog.functions.items():
         if fi.cls == "Prefix" or fi.module in ("hypothesis", "pytest", "formatting"):
             continue
+        # locals that only name a prefix's base / exponent (`exponent = self.unit.prefix.exponent`)
+        named: Set[str] = set()
+        for st in ast.walk(fi.node):
+            if isinstance(st, ast.Assign) and len(st.targets) == 1 and isinstance(st.targets[0], ast.Name) and isinstance(st.value, ast.Attribute) \
+                    and st.value.attr in ("base", "exponent"):
+                if any(k == "inst" and f == "measured.Prefix" for k, f in resolver.expr_alts(fi, st.value.value)):
+                    named.add(st.targets[0].id)
         for node in ast.walk(fi.node):
             numeric_call = isinstance(node, ast.Call) and (
                 (isinstance(node.func, ast.Attribute) and node.func.attr in ("scaleb", "ldexp", "shift", "__pow__", "pow"))
@@ -188,6 +195,13 @@ def prefix_arithmetic_layering(rep: Report, prog: Program, resolver: Resolver) -
             if not isinstance(node, (ast.BinOp, ast.AugAssign)) and not numeric_call:
                 continue
             for sub in (ast.walk(node) if not numeric_call else [x for a in list(node.args) + [k.value for k in node.keywords] for x in ast.walk(a)]):
+                if isinstance(sub, ast.Name) and sub.id in named and isinstance(sub.ctx, ast.Load):
+                    n += 1
+                    rep.fail("R11.7", f"{q}:{ast.unparse(node)[:50]}",
+                             f"`{ast.unparse(node)[:80]}` does arithmetic on `{sub.id}`, a prefix's base/exponent, outside class Prefix: "
+                             "prefix factors must come from Prefix.quantify and the verified prefix operators "
+                             "(mixed bases are otherwise mishandled)", fi.where(node))
+                    break
                 if isinstance(sub, ast.Attribute) and sub.attr in ("base", "exponent"):
                     alts = resolver.expr_alts(fi, sub.value)
                     if any(k == "inst" and f == "measured.Prefix" for k, f in alts):
